@@ -40,6 +40,11 @@ pub enum Ev {
     AggAhead,
     /// the signer's node catches up with the aggregator's epoch
     NodeCatchUp,
+    /// one cycle of the signer state machine during which the chain enters the next epoch (new stake
+    /// distribution) right after the `after`-th query the signer makes to its node in that cycle
+    /// (0: before the first; more than the cycle makes: right after the cycle). `node_only`: the
+    /// aggregator has not noticed the new epoch yet (it follows with `AggAhead`).
+    TickTurn { after: u8, node_only: bool },
     /// the next signature publication is received but its acknowledgement is lost
     PublishFails,
     /// the next registration of the signer is recorded but its acknowledgement is lost
@@ -86,15 +91,27 @@ pub async fn apply(w: &mut World, ev: &Ev, log: &mut Vec<String>) -> bool {
         })
     };
     match ev {
-        Ev::Tick => {
+        Ev::Tick | Ev::TickTurn { .. } => {
             let n_before = agg.with(|st| st.publications.len());
-            let r = w.tick().await;
+            let turn = match ev {
+                Ev::TickTurn { after, node_only } => Some((*after as u32, *node_only)),
+                _ => None,
+            };
+            let r = w.tick_turning(turn).await;
             let st = w.state().await;
             let pubs: Vec<String> =
                 agg.with(|s| s.publications[n_before..].iter().map(|p| format!("{:?}{}", p.entity, if p.acked { "" } else { "(unacked)" })).collect());
+            let label = match ev {
+                Ev::TickTurn { after, node_only } => format!(
+                    "tick(epoch turns after node query {after} of {}{})",
+                    w.queries_in_last_cycle,
+                    if *node_only { ", aggregator not yet" } else { "" }
+                ),
+                _ => "tick".to_string(),
+            };
             log.push(match r {
-                Ok(()) => format!("tick->{st}{}", if pubs.is_empty() { String::new() } else { format!(" published {}", pubs.join(",")) }),
-                Err(e) => format!("tick-err({})->{st}", short(&e)),
+                Ok(()) => format!("{label}->{st}{}", if pubs.is_empty() { String::new() } else { format!(" published {}", pubs.join(",")) }),
+                Err(e) => format!("{label}-err({})->{st}", short(&e)),
             });
             true
         }
@@ -249,10 +266,41 @@ pub enum Tail<'a> {
     OncePerState(&'a std::sync::Mutex<std::collections::HashSet<u64>>),
 }
 
+/// What a cycle during which the epoch turned left in the node, compared with the chain (harness-side
+/// knowledge): a stake distribution stored in the slot of another epoch, or a registered state of one
+/// epoch sitting on the epoch data of another.
+async fn diagnose(w: &World) -> Option<&'static str> {
+    let n = w.node();
+    let cur = w.outside.agg.node_epoch().await;
+    for e in (cur - 1).max(1)..=cur + 2 {
+        if let Ok(Some(stored)) = n.stake_store.get_stakes(Epoch(e as u64)).await {
+            let reference = w.outside.agg.with(|st| st.stakes.get(&(e - RECORD_DELAY)).cloned()).unwrap_or_default();
+            if stored.iter().any(|(p, s)| reference.get(p) != Some(s)) {
+                return Some("stake-distribution-stored-for-another-epoch");
+            }
+        }
+    }
+    let state_epoch = match w.state().await {
+        SignerState::ReadyToSign { epoch } | SignerState::RegisteredNotAbleToSign { epoch } => Some(epoch),
+        _ => None,
+    };
+    if let Some(x) = state_epoch {
+        if let Ok(y) = n.epoch_service.read().await.epoch_of_current_data() {
+            if x != y {
+                return Some("state-epoch-differs-from-epoch-of-loaded-data");
+            }
+        }
+    }
+    None
+}
+
 pub struct Outcome {
     pub result: RunResult,
     /// acknowledged publications (epoch, entity) — for the restart differential
     pub published: BTreeSet<String>,
+    /// number of queries the signer made to its node during each event of the history (0 for events
+    /// that are not cycles)
+    pub node_queries: Vec<u32>,
     pub stats: BTreeMap<&'static str, u64>,
 }
 
@@ -300,6 +348,11 @@ pub fn replay_in(scratch: &Path, fixture: &MithrilFixture, history: &[Ev], tail:
         }
         let mut log = vec![];
         let mut disabled = false;
+        let mut node_queries = vec![];
+        // classification of what an epoch turn inside a cycle left behind in the node (names the root
+        // cause in the classifier key; it never creates or removes a violation)
+        let mut turned_inside = false;
+        let mut cause: Option<(&'static str, i64)> = None;
         for (i, ev) in history.iter().enumerate() {
             w.outside.agg.with(|st| st.step = i as i64);
             let t_ev = std::time::Instant::now();
@@ -316,6 +369,18 @@ pub fn replay_in(scratch: &Path, fixture: &MithrilFixture, history: &[Ev], tail:
             }
             if !ok && i + 1 == history.len() {
                 disabled = true;
+            }
+            node_queries.push(if matches!(ev, Ev::Tick | Ev::TickTurn { .. }) { w.queries_in_last_cycle } else { 0 });
+            if let Ev::TickTurn { after, .. } = ev {
+                if *after > 0 && (*after as u32) <= w.queries_in_last_cycle {
+                    turned_inside = true;
+                }
+            }
+            if turned_inside && cause.is_none() && matches!(ev, Ev::Tick | Ev::TickTurn { .. }) {
+                if let Some(c) = diagnose(&w).await {
+                    cause = Some((c, i as i64));
+                    log.push(format!("    (diagnosis after the epoch turned inside a cycle: {c})"));
+                }
             }
         }
         let canon = canon(&w).await;
@@ -350,6 +415,10 @@ pub fn replay_in(scratch: &Path, fixture: &MithrilFixture, history: &[Ev], tail:
             });
             log.push("-- tail: faults cleared, node catches up if behind, 3 x [Epoch, Tick, Tick, Tick]".into());
             apply(&mut w, &Ev::NodeCatchUp, &mut log).await;
+            if w.outside.agg.with(|st| st.skew) < 0 {
+                // an aggregator that was behind the node catches up
+                apply(&mut w, &Ev::AggAhead, &mut log).await;
+            }
             for _ in 0..SIGN_DELAY + 1 {
                 apply(&mut w, &Ev::Epoch, &mut log).await;
                 // two cycles to register, a third one that signs if the signer is able to
@@ -385,7 +454,10 @@ pub fn replay_in(scratch: &Path, fixture: &MithrilFixture, history: &[Ev], tail:
         let violations: Vec<Violation> = found
             .into_iter()
             .map(|(key, what, step)| Violation {
-                key: key.to_string(),
+                key: match cause {
+                    Some((c, from)) if step >= from => format!("{key}:after-epoch-turn-inside-a-cycle:{c}"),
+                    _ => key.to_string(),
+                },
                 what,
                 replay: json!({"history": hist_json, "failing_step": step, "log": log, "world": mode.label()}),
             })
@@ -427,6 +499,7 @@ pub fn replay_in(scratch: &Path, fixture: &MithrilFixture, history: &[Ev], tail:
                 disabled,
             },
             published,
+            node_queries,
             stats,
         }
     });
